@@ -23,4 +23,6 @@ def run(rep, fb, tier):
     _pr.rule_py_callback_layout(rep)
     from ..rules import lints2 as _l2
     _l2.rule_dtype_case_methods(rep, fb)
+    from ..rules import pyrules as _pr4
+    _pr4.rule_py_defassign(rep)
     rep.units = fb.units
